@@ -10,7 +10,7 @@ import (
 	_ "verif/sim/engines/c02"
 	_ "verif/sim/engines/c07"
 	_ "verif/sim/engines/c10"
-	_ "verif/sim/engines/c17"
+	"verif/sim/engines/c17"
 	_ "verif/sim/engines/c20"
 	"verif/sim/harness"
 	"verif/sim/simkit/conform"
@@ -19,6 +19,23 @@ import (
 func main() {
 	if len(os.Args) > 1 && os.Args[1] == "smoke" {
 		os.Exit(smoke(os.Args[2:]))
+	}
+	if len(os.Args) > 1 && os.Args[1] == "racesweep" {
+		n := 200
+		if len(os.Args) > 2 {
+			fmt.Sscan(os.Args[2], &n)
+		}
+		out := os.Stdout
+		if dn, err := os.OpenFile(os.DevNull, os.O_WRONLY, 0); err == nil {
+			os.Stdout = dn
+		}
+		seed := uint64(1)
+		if len(os.Args) > 3 {
+			fmt.Sscan(os.Args[3], &seed)
+		}
+		ran, to, pn := c17.RaceSweep(n, seed)
+		fmt.Fprintf(out, "{\"programs\": %d, \"timed_out\": %d, \"routine_panics\": %d}\n", ran, to, pn)
+		os.Exit(0)
 	}
 	if len(os.Args) > 1 && os.Args[1] == "conformance" {
 		n := 400
